@@ -63,7 +63,7 @@ def pub(name):
 
 
 def scratch():
-    d = os.path.join(tlc.WORK, 'C05r_tmp')
+    d = os.path.join(tlc.WORK, f'C05r_tmp_{os.getpid()}')
     os.makedirs(d, exist_ok=True)
     return d
 
@@ -418,7 +418,7 @@ def run_case(case, ops=PERM_OPS, requests=(), dests=(), client_env=None):
                 continue
             seen, reply = await attempt(conn, op)
             out['ops'][op] = seen
-            out.setdefault('replies', {})[op] = reply
+            out.setdefault('op_replies', {})[op] = reply
         for d in dests:
             host, port = d.rsplit(':', 1)
             mark = len(log)
@@ -460,7 +460,7 @@ def run_case(case, ops=PERM_OPS, requests=(), dests=(), client_env=None):
     except Deadlock:
         out['errors'].append('hung')
     except Exception as exc:            # pylint: disable=broad-except
-        import traceback; out["errors"].append(traceback.format_exc())
+        out["errors"].append(f"{type(exc).__name__}: {exc}")
     finally:
         tempfile.tempdir = old_tmp
     out['granted'] = w.get('granted')
@@ -613,4 +613,5 @@ def replay(rep):
 
 
 def cleanup():
-    shutil.rmtree(os.path.join(tlc.WORK, 'C05r_tmp'), ignore_errors=True)
+    shutil.rmtree(os.path.join(tlc.WORK, f'C05r_tmp_{os.getpid()}'),
+                  ignore_errors=True)
